@@ -142,6 +142,11 @@ func (s *fbServer) serveTCP() {
 					r := hx.BuildReply(q, false, 0, [4]byte{2, 2, 2, 2}, 60)
 					out := binary.BigEndian.AppendUint16(nil, uint16(len(r)))
 					c.Write(append(out, r...))
+				case "tc":
+					// the TCP answer is truncated as well (an answer beyond 64 KiB): the caller gets it as it is, TC set
+					r := hx.BuildReply(q, true, 0, [4]byte{2, 2, 2, 3}, 60)
+					out := binary.BigEndian.AppendUint16(nil, uint16(len(r)))
+					c.Write(append(out, r...))
 				case "close":
 					return
 				case "garbage":
@@ -234,7 +239,13 @@ func runFallback(id string, parts []string) string {
 	}
 	if err == nil && resp != nil {
 		res = "?"
-		if resp.Header.Truncated {
+		if a, ok := firstA(resp); ok && a == [4]byte{2, 2, 2, 3} {
+			if resp.Header.Truncated {
+				res = "TT"
+			} else {
+				res = "TT-TC-CLEARED"
+			}
+		} else if resp.Header.Truncated {
 			res = "TRUNCATED"
 		} else if len(resp.Answers) == 1 || len(resp.Answers) == 181 {
 			if a, ok := resp.Answers[0].(*dnsmsg.A); ok {
@@ -265,4 +276,15 @@ func runFallback(id string, parts []string) string {
 	}
 	s.mu.Unlock()
 	return fmt.Sprintf("res=%s tcpq=%d udpq=%d sameq=%s", res, s.tcpQ.Load(), s.udpQ.Load(), sameq)
+}
+
+func firstA(m *dnsmsg.Msg) ([4]byte, bool) {
+	if len(m.Answers) == 0 {
+		return [4]byte{}, false
+	}
+	a, ok := m.Answers[0].(*dnsmsg.A)
+	if !ok {
+		return [4]byte{}, false
+	}
+	return a.A, true
 }
